@@ -84,8 +84,8 @@ def run_program(args):
     import astropy.units as u
     from astropy.nddata import NDData, StdDevUncertainty
     base = E.base_scene(seed=5)
-    # a read-noise dominated error map (values ~185): squares of the integer representations exceed the int16 range
-    base['error'] = base['error'] + 180.0
+    # a read-noise dominated error map (values ~305): squares of the integer representations exceed the 16-bit ranges
+    base['error'] = base['error'] + 300.0      # (squares exceed the int16 AND the uint16 range)
     segm = E._segm(base)
     if entry == 'isophote_fit':
         base['galaxy'] = E.galaxy_counts()
